@@ -312,9 +312,11 @@ def formats(chk, rng):
     for n in (8, 16, 32, 64):
         for s in (1, 0):
             fr = list(range(0, n + 1)) + [n + 1, n + 4]
+            if n <= 16:
+                fr += [25, 30, 40]          # far more fractional bits than bits (array converters accept any)
             if chk.quick and n >= 32:
                 # every n_frac of the narrow formats; a seeded half of them (and both ends) of the wide ones
-                keep = {0, 1, 2, n // 2, n - 2, n - 1, n, n + 1, n + 4}
+                keep = {0, 1, 2, n // 2, n - 2, n - 1, n, n + 1, n + 4, 25, 30, 40}
                 fr = [f for f in fr if f in keep or rng.random() < 0.5]
             out += [(s, n, f) for f in fr]
     # widths only the scalar functions support (no array events): below, at and beyond a double's 53 bits
@@ -425,7 +427,7 @@ def run(chk):
         "the round trip is demanded for values whose magnitude spans at most 53 bits (the others have no double equal to "
         "them; for those only agreement of the variants and exactness of the conversion back are checked)",
         "arrays are float64 (float32 input arrays are outside what is exercised)",
-        "0 <= n_frac <= n_bits + 4; n_bits in {8, 16, 32, 64} (the widths the array converter supports)",
+        "0 <= n_frac <= n_bits + 4 (and 25, 30, 40 for the 8/16-bit formats); n_bits in {8, 16, 32, 64} (the widths the array converter supports)",
     ]
     chk.sample(dict(traces[0], ev=traces[0]["ev"][:6] + [["..."]]))
     chk.sample(dict(traces[len(traces) // 2], ev=traces[len(traces) // 2]["ev"][:6] + [["..."]]))
